@@ -284,9 +284,11 @@ def run_apalache(comp):
         ok = 'EXITCODE: OK' in out
         res['obligations'].append({'name': name, 'ok': ok, 'wall_s': round(time.time() - t, 1)})
         if not ok:
-            log(out[-1500:])
+            # depends on the specification only, never on /repo: not a verdict about the code, so not fatal
+            log('[apalache] WARNING: %s obligation of %s not discharged (tool output tail follows)' % (name, a['inv']))
+            log(out[-800:])
             shutil.rmtree(outd, ignore_errors=True)
-            raise ToolError('Apalache did not discharge the %s obligation of %s' % (name, a['inv']))
+            return res
     shutil.rmtree(outd, ignore_errors=True)
     os.makedirs(os.path.dirname(cache), exist_ok=True)
     json.dump(res, open(cache, 'w'))
@@ -511,7 +513,7 @@ def run_part(prop, P, part, tier, seed, workdir, known):
             log('DRIFT component=%s %d runs differ from the full model (first: %s)' % (comp, len(dv['rejected']), json.dumps(dv['rejected'][0][2])[:300]))
 
     apal = run_apalache(comp)
-    if apal:
+    if apal and len(apal['obligations']) == 2 and all(o['ok'] for o in apal['obligations']):
         log('[%s] Apalache: inductive invariant %s of %s discharged (base + step)' % (prop, apal['invariant'], apal['module']))
     return {'comp': comp, 'profile': profile, 'mc': mc, 'gen_n': gen_n, 'tour_n': tour_n, 'tour_edges': tour_edges, 'apalache': apal, 'skipped': skipped, 'tot': tot, 'violations': violations,
             'known_hits': known_hits, 'samples': samples, 'selftest': selftest, 'drift': drift}
